@@ -234,9 +234,17 @@ namespace hs
                                  traits::allocate_node(*o_, r.size, r.align);
             default:
                 usable = r.array ? r.count * r.size : r.size;
+                if (member_try(r))
+                    return r.array ? o_->try_allocate_array(r.count) : o_->try_allocate_node();
                 return r.array ? ctraits::try_allocate_array(*o_, r.count, r.size, r.align) :
                                  ctraits::try_allocate_node(*o_, r.size, r.align);
             }
+        }
+        // a composable request for whole nodes at a supported alignment goes through the pool's own try_ members
+        // (which take no size), every other one through composable_allocator_traits
+        bool member_try(const Req& r)
+        {
+            return r.size == o_->node_size() && r.align <= traits::max_alignment(*o_);
         }
         bool deallocate(const Req& r, void* p) override
         {
@@ -255,6 +263,8 @@ namespace hs
                     traits::deallocate_array(*o_, p, r.count, r.size, r.align);
                 return true;
             default:
+                if (member_try(r))
+                    return r.array ? o_->try_deallocate_array(p, r.count) : o_->try_deallocate_node(p);
                 return r.array ? ctraits::try_deallocate_array(*o_, p, r.count, r.size, r.align) :
                                  ctraits::try_deallocate_node(*o_, p, r.size, r.align);
             }
@@ -438,7 +448,14 @@ namespace hs
                 std::unique_ptr<Unwinder> u(new Unwinder(*o_));
                 markers_.push_back(u->get_marker());
                 std::unique_ptr<Unwinder> k;
-                if (markers_.size() % 2)
+                if (markers_.size() % 3 == 2)
+                {
+                    // assignment onto an unwinder that is still armed (at this very position: it unwinds to where the
+                    // stack already is, then takes over)
+                    k.reset(new Unwinder(*o_));
+                    *k = std::move(*u);
+                }
+                else if (markers_.size() % 2)
                 {
                     k.reset(new Unwinder(*o_));
                     k->release();
